@@ -253,8 +253,23 @@ def check_maxsimul(events, incarnations, part_violation):
     pid_idx = {}
     st = {"norun_spawns": 0, "spawns_at_limit": 0, "max_running": 0, "runs_after_limit": 0, "limited_spawns": 0}
     hit = set()
+    # which definition of a task is loaded is decided by the order of the log (a run and a replace request can
+    # share one instant), exactly as in check_schedule()
+    start_at, end_at, current = {}, {}, {}
+    for uid, lst in incarnations.items():
+        for inc in lst:
+            if getattr(inc, "conn", None) is not None:
+                start_at[inc.conn] = inc
+            if getattr(inc, "end_conn", None) is not None:
+                end_at.setdefault(inc.end_conn, []).append(inc)
     for e in events:
-        if e[0] == "SPAWN":
+        if e[0] == "REQ":
+            for inc in end_at.get(e[1], []):
+                if current.get(inc.uid) is inc:
+                    current[inc.uid] = None
+            if e[1] in start_at:
+                current[start_at[e[1]].uid] = start_at[e[1]]
+        elif e[0] == "SPAWN":
             idx, pid, s, argv = e[1], e[2], e[3], e[4]
             uid = vtodo_uid(vt.get(idx, ""))
             idx_uid[idx] = uid
@@ -262,9 +277,12 @@ def check_maxsimul(events, incarnations, part_violation):
             if uid is None:
                 continue
             lim = None
-            for inc in incarnations.get(uid, []):
-                if inc.t0 <= s + 1e-9 and (inc.end is None or s < inc.end - 1e-9):
-                    lim = inc.limit
+            if start_at or end_at:
+                lim = current[uid].limit if current.get(uid) is not None else None
+            else:
+                for inc in incarnations.get(uid, []):
+                    if inc.t0 <= s + 1e-9 and (inc.end is None or s < inc.end - 1e-9):
+                        lim = inc.limit
             a = alive.setdefault(uid, set())
             u = unreaped.setdefault(uid, set())
             norun = has_norun(argv)
